@@ -16,9 +16,12 @@ def run_mutant(path):
     pid = os.path.basename(os.path.dirname(path))
     name = os.path.basename(path)
     expect = []
+    tier = "quick"
     for line in open(path):
         if line.startswith("# expect:"):
             expect.append(line.split(":", 1)[1].strip())
+        if line.startswith("# tier:"):
+            tier = line.split(":", 1)[1].strip()  # clauses labelled @slow.* are thorough-tier only
     tmp = tempfile.mkdtemp(prefix="govc-mut-")
     try:
         subprocess.run(["rsync", "-a", "--exclude", ".git", REPO + "/", tmp + "/repo/"], check=True)
@@ -36,7 +39,7 @@ def run_mutant(path):
             elif os.path.exists(src):
                 shutil.copy(src, vdir)
         env = dict(os.environ, GOFLAGS="-mod=mod", GOPROXY="off")
-        r = subprocess.run([os.path.join(VERIF, "bin/govc"), "check", "-id", pid, "-repo", tmp + "/repo", "-verif", vdir],
+        r = subprocess.run([os.path.join(VERIF, "bin/govc"), "check", "-id", pid, "-tier", tier, "-repo", tmp + "/repo", "-verif", vdir],
                            capture_output=True, text=True, env=env, timeout=1800)
         out = r.stdout + r.stderr
         viol = [l for l in out.splitlines() if l.startswith("VIOLATION")]
